@@ -14,6 +14,7 @@ from harness.props.C04_util import A, W, R, CIO, TICK, EMIT
 PID = "C05"
 XIO = 6
 KEY_BRIDGE = "bridge-created-under-traffic"
+KEY_FILTER = "filter-reset-races-put-message"
 PRE = "From Whad Require Import C04.Model C05.Model.\nOpen Scope N_scope."
 
 
@@ -128,6 +129,26 @@ def gen_conn_cases(ctx):
             if ctx.thorough:
                 cases.append(conn_case(cfg, script, spont, l0, policy="np", preempt=[[k, A], [k + 2, CIO]], kind=kind, order=PRODUCER_FIRST))
                 cases.append(conn_case(cfg, script, spont, l0, policy="np", preempt=[[k, CIO], [k + 1, A]], kind=kind, order=PRODUCER_FIRST))
+    # synchronous mode transitions under traffic: for each of OFF->PKT, OFF->ALL, PKT->ALL, ALL->PKT,
+    # PKT->OFF, ALL->OFF the I/O thread is stopped after k steps of its handling of a packet (between
+    # every pair of its mode loads) and the application performs j steps of the switch
+    cfgs = {"conn": True, "virt": False, "tmo": 3}
+    for a_, b_ in ((0, 1), (0, 2), (1, 2), (2, 1), (1, 0), (2, 0)):
+        script = ([["sync", a_]] if a_ else []) + [["sync", b_], ["wait", 1], ["wait", 1], ["wait", 1]]
+        sp2 = [[[0, 1, True]], [[0, 2, True]]]
+        na = 2 if a_ else 0
+        for k in range(0, 9):
+            for j in range(0, 4):
+                prefix = [A] * na + [EMIT, EMIT] + [R] * 12 + [CIO] * k + [A] * j + [CIO] * 7 + [A] * 3
+                cases.append(conn_case(cfgs, script, sp2, False, prefix=prefix, kind="sync-trans"))
+    for _ in range(300 if ctx.thorough else 40):
+        uid = U.Uid()
+        script = []
+        for _ in range(rng.choice([2, 3, 4, 5])):
+            script.append(["sync", rng.choice([0, 1, 2, 1, 2])] if rng.random() < 0.5 else ["wait", rng.choice([1, 2])])
+        spont = pkt_chunks(rng, uid, rng.choice([1, 2, 3, 4]))
+        prefix = [a for a in U.gen_prefix(rng, rng.choice([10, 30, 60, 100]), virt=False) if a != W]
+        cases.append(conn_case(cfgs, script, spont, False, prefix=prefix, kind="sync-trans"))
     # unlock() running while packets keep arriving: three packets, the application cuts in after k
     # producer steps and the I/O thread cuts back in j steps later (between two dispatches of unlock)
     cfg3 = {"conn": True, "virt": False, "tmo": 3}
@@ -156,10 +177,17 @@ def gen_side(rng, uid, quiet, locked=None):
         if r < 0.2:
             return [rng.choice([7, 8, 12]), uid.next(), False]
         return pk()
+    # the filter an earlier send_command / send_message(keep=...) left on the device, and "command
+    # results" (messages that filter would keep) among what the device emits afterwards
+    filt = rng.choice([None, None, 3, 4, 0])
+    def anyf():
+        if filt is not None and rng.random() < 0.4:
+            return [filt, uid.next(), filt == 0]
+        return anym()
     held = [pk() for _ in range(rng.choice([0, 1, 2, 3]))] if locked else []
     ev0 = [] if quiet else [anym() for _ in range(rng.choice([0, 0, 1, 2]))]
-    spont = [[anym() for _ in range(rng.choice([1, 1, 2]))] for _ in range(rng.choice([0, 1, 2, 3]))]
-    return {"locked": locked, "held": held, "ev0": ev0, "spont": spont}
+    spont = [[anyf() for _ in range(rng.choice([1, 1, 2]))] for _ in range(rng.choice([0, 1, 2, 3]))]
+    return {"locked": locked, "filt": filt, "held": held, "ev0": ev0, "spont": spont}
 
 
 def gen_bridge_cases(ctx):
@@ -172,7 +200,7 @@ def gen_bridge_cases(ctx):
         one_way = (i % 5 == 4)
         case = {"kind": "bridge",
                 "in": gen_side(rng, uid, quiet, locked=True if one_way else None),
-                "out": gen_side(rng, uid, quiet) if not one_way else {"locked": False, "held": [], "ev0": [], "spont": []},
+                "out": gen_side(rng, uid, quiet) if not one_way else {"locked": False, "filt": None, "held": [], "ev0": [], "spont": []},
                 "tail": True}
         if quiet:
             # created on a quiet link: Bridge.__init__ runs to completion before any emission
@@ -256,6 +284,21 @@ def oracle_conn(case, res):
         both = [m for m in got if m in obs["dispatched"]]
         if both:
             out.append(("a packet retrieved with wait_packet was also dispatched to on_packet", [], both))
+    # synchronous mode across transitions: only enable_synchronous / wait_packet, packets only
+    if script and all(op[0] in ("sync", "wait") for op in script) and all(f[2] and f[0] != 13 for f in U.msgs_of(case.get("spont", []))):
+        e = [list(f) for f in info["emitted"]]
+        got = [m for m in obs["retrieved"] if m is not None]
+        acc = obs["delivered"] + got + obs["sync_q"] + obs.get("cleared", [])
+        if len({tuple(m) for m in acc}) != len(acc) or any(m not in e for m in acc):
+            out.append(("a packet is accounted for twice (processed / retrieved / queued / cleared)", e, acc))
+        if [m for m in e if m in got] != got:
+            out.append(("wait_packet did not return the packets in arrival order", e, got))
+        both = [m for m in got if m in obs["dispatched"]]
+        if both:
+            out.append(("a packet retrieved with wait_packet was also dispatched to on_packet", [], both))
+        if quiet and not any(op == ["sync", 0] for op in script) and sorted(map(tuple, acc)) != sorted(map(tuple, e)):
+            out.append(("a packet was silently lost across a synchronous-mode transition: neither processed, nor retrievable, nor discarded by an explicit clear",
+                        e, {"delivered": obs["delivered"], "retrieved": got, "sync_q": obs["sync_q"], "cleared": obs.get("cleared", [])}))
     return out
 
 
@@ -283,12 +326,25 @@ def oracle_bridge(case, res):
     if "error" in res:
         return [("driver error: " + res["error"], None, res.get("tb"), None)]
     obs, info = res["obs"], res["info"]
+    dead_known = set()
     if info["crashed"] or obs["in"]["dead"] or obs["out"]["dead"]:
-        out.append(("a thread died while the bridge was being created", {}, info["crashed"], None))
+        # known class: the reader of a device carrying a stale filter dies with TypeError when the
+        # bridge resets that filter under traffic (two unsynchronised loads in Device.put_message)
+        key = None
+        crashed = dict(info["crashed"])
+        for k, r in (("in", "R0"), ("out", "R1")):
+            if crashed.get(r) == "TypeError" and case.get(k, {}).get("filt") is not None and bridge_class(case, res):
+                dead_known.add(k)
+                crashed.pop(r)
+        if not crashed and dead_known and not any(obs[k]["dead"] and k not in dead_known for k in ("in", "out")):
+            key = KEY_FILTER
+        out.append(("a thread died while the bridge was being created", {}, info["crashed"], key))
     quiet = (not res["capped"]) and obs["done"] and info["wire_left"] == 0 and info["spont_left"] == 0 \
         and all(not obs[k]["ev_o"] and not obs[k]["ev_w"] for k in ("in", "out")) \
         and all(l.endswith(".get") or l.endswith(".read") for l in info["pending"].values())
     for k in ("in", "out"):
+        if k in dead_known:
+            continue
         o = obs[k]
         allm = side_msgs(case.get(k, {}))
         peer = o["peer"]
@@ -298,13 +354,14 @@ def oracle_bridge(case, res):
             out.append(("%s side: on_packet calls of the old connector differ from its packet dispatches" % k, o["lost"], o["on_packets"], None))
         if quiet:
             handled = [m for m in o["deliv_o"] if not m[2]]          # non-packet messages processed by the old connector
-            everything = sorted(map(tuple, peer + o["lost"] + handled + o["lq"]))
+            everything = sorted(map(tuple, peer + o["lost"] + handled + o["lq"] + o.get("kept", [])))
             if everything != sorted(map(tuple, allm)):
                 out.append(("%s side: a message vanished or appeared (relayed + handled by the old connector + held != emitted)" % k, allm,
-                            {"peer": peer, "old connector": o["lost"] + handled, "held": o["lq"]}, None))
+                            {"peer": peer, "old connector": o["lost"] + handled, "held": o["lq"], "kept by a device filter": o.get("kept", [])}, None))
             if peer != allm:
                 out.append(("%s side: the bridge did not relay every message exactly once in order" % k, allm,
-                            {"peer": peer, "handled by the old connector instead": o["lost"] + handled, "left in the holding queue": o["lq"]},
+                            {"peer": peer, "handled by the old connector instead": o["lost"] + handled, "left in the holding queue": o["lq"],
+                             "kept by the device's message filter": o.get("kept", [])},
                             bridge_class(case, res)))
         else:
             sub = [m for m in allm if m in peer]
@@ -319,14 +376,15 @@ def oracle_bridge(case, res):
 
 def c_side(side, default_locked):
     ml = lambda l: C.clist([U.c_msg(m) for m in l])
-    return "(%s, %s, %s, %s)" % (C.cbool(side.get("locked", default_locked)), ml(side.get("held", [])),
-                                 ml(side.get("ev0", [])), U.c_chunks(side.get("spont", [])))
+    f = side.get("filt")
+    return "(%s, %s, %s, %s, %s)" % (C.cbool(side.get("locked", default_locked)), "None" if f is None else "(Some %d)" % f,
+                                     ml(side.get("held", [])), ml(side.get("ev0", [])), U.c_chunks(side.get("spont", [])))
 
 
 def c_sobs(o):
     ml = lambda l: C.clist([U.c_msg(m) for m in l])
-    return "(mkSO %s %s %s %s %s %s %s %s %s)" % (ml(o["peer"]), ml(o["lost"]), ml(o["lq"]), ml(o["deliv_o"]), ml(o["deliv_w"]),
-                                                ml(o["ev_o"]), ml(o["ev_w"]), C.cbool(o["locked"]), C.cbool(o["dead"]))
+    return "(mkSO %s %s %s %s %s %s %s %s %s %s)" % (ml(o["peer"]), ml(o["lost"]), ml(o["lq"]), ml(o["deliv_o"]), ml(o["deliv_w"]),
+                                                   ml(o["ev_o"]), ml(o["ev_w"]), C.cbool(o["locked"]), C.cbool(o["dead"]), ml(o.get("kept", [])))
 
 
 def c_bcase(case, res, legacy_ctor=False):
